@@ -5,7 +5,10 @@ F = 'vermouth/truncating_formatter.py'
 
 
 def setup_ff(cx):
-    spec = cx.obj('FormatSpec', width=cx.val('width', TInt), align=cx.val('align', TStr))
+    # every field of the FormatSpec namedtuple (fill align sign alt zero_padding width comma decimal precision type); the
+    # truncation reads width and align, the others are arbitrary strings
+    spec = cx.obj('FormatSpec', width=cx.val('width', TInt), align=cx.val('align', TStr),
+                  **{f: cx.val('spec_' + f, TStr) for f in ('fill', 'sign', 'alt', 'zero_padding', 'comma', 'decimal', 'precision', 'type')})
     return dict(result=cx.val('result', TCStr), spec=spec)
 
 
